@@ -186,8 +186,22 @@ Definition standard_outcome (c : cls) : outcome :=
   else if subclass c CXFail then OXFail
   else if subclass c CUx then OUx
   else OErr.
+(* the handlers the test inserts while it runs, in the order the insertions are executed *)
+Definition act_inserts (a : act) : list (cls * outcome) :=
+  match a with AInsertHandler c o => [(c, o)] | _ => [] end.
+Definition acts_inserts (l : list act) : list (cls * outcome) := flat_map act_inserts (executed l).
+Definition entry_inserts (e : entry) : list (cls * outcome) :=
+  match e with EUser _ body => acts_inserts body | _ => [] end.
+Definition inserted (p : prog) : list (cls * outcome) :=
+  if skipped p then [] else
+  acts_inserts (snd (p_setup p))
+  ++ (if setup_returns p then acts_inserts (snd (p_body p)) ++ acts_inserts (snd (p_teardown p)) else [])
+  ++ flat_map entry_inserts (cleanup_entries p).
+(* the front of exception_handlers when the outcome is chosen: each insertion goes to position 0,
+   so the latest comes first; then the ones present before run() *)
+Definition user_handlers (p : prog) : list (cls * outcome) := rev (inserted p) ++ p_handlers p.
 Definition user_claim (p : prog) (e : exc) : option (cls * outcome) :=
-  find (fun co => isinstance e (fst co)) (p_handlers p).
+  find (fun co => isinstance e (fst co)) (user_handlers p).
 Definition outcome_of (p : prog) (e : exc) : outcome :=
   match user_claim p e with
   | Some co => snd co
@@ -240,23 +254,17 @@ Inductive devent :=
 | DOnExc (h : nat)                   (* addOnException(h) *)
 | DExc (c : cls).                    (* an exception of class c raised by user code is caught *)
 
-(* a fixture's details as its getDetails() returns them: a later addDetail under the same
-   name replaces the earlier *)
-Fixpoint fx_put (n : dname) (loc : nat) (l : list (dname * nat)) : list (dname * nat) :=
-  match l with
-  | [] => [(n, loc)]
-  | (m, x) :: r => if dname_eqb n m then (m, loc) :: r else (m, x) :: fx_put n loc r
-  end.
-Definition fx_dict (fx : fixture) : list (dname * nat) :=
-  fold_left (fun d nl => fx_put (fst nl) (snd nl) d) (fx_details fx) [].
-Definition fx_events (fx : fixture) : list devent := map (fun nl => DFx (fst nl) (snd nl)) (fx_dict fx).
+(* a fixture's details as its getDetails() returns them, a mismatch's as its get_details() does
+   (Model.nl_dict: a later assignment to the same name replaces the earlier) *)
+Definition fx_events (fx : fixture) : list devent := map (fun nl => DFx (fst nl) (snd nl)) (nl_dict (fx_details fx)).
+Definition mm_events (mm : list (dname * nat)) : list devent := map (fun nl => DMis (fst nl) (snd nl)) (nl_dict mm).
 
 Definition act_events (a : act) : list devent :=
   match a with
   | ADetail n loc => [DUser n loc]
   | ASetCell loc v => [DSetCell loc v]
-  | AExpect mm => map (fun nl => DMis (fst nl) (snd nl)) mm ++ [DStack]
-  | AAssert mm => map (fun nl => DMis (fst nl) (snd nl)) mm
+  | AExpect mm => mm_events mm ++ [DStack]
+  | AAssert mm => mm_events mm
   | AFixture fx => match fx_fail fx with Some _ => fx_events fx | None => [] end   (* gathered at once when set-up fails *)
   | AOnExc h => [DOnExc h]
   | AExpectFailure r (Some e) => DReason (Some r) :: if isinstance e CFail then [DTb] else []
